@@ -1056,7 +1056,9 @@ def gen_connpool(rng: random.Random, tier: str) -> dict:
     mn = rng.choice([0, 0, 0, 1, mx])
     mn = min(mn, mx)
     lat = rng.choice([0, 1, 2, 4, 8, 16])           # connection set-up latency in ticks
-    timeout = rng.choice([0.05, 0.2, 1.0, 5.0])     # seconds
+    # seconds; round 8 adds timeouts of a few milliseconds (the waiters' poll interval is timeout/10: C09-r8-1 rounded
+    # it to whole milliseconds, so a timeout below 5 ms made a blocked acquire() poll every 0 s at a frozen clock)
+    timeout = rng.choice([0.05, 0.2, 1.0, 5.0, 0.002, 0.004, 0.013])
     idle = rng.choice([3, 10, 40, 400])             # ticks
     nw = rng.randint(2, 10)
     spread = rng.choice([0, 0, 1, 3, 10, 20])
